@@ -51,13 +51,17 @@ fn hist(args: &[String]) {
     let mut r = Rng::new(seed);
     let mut out: Vec<Vec<String>> = vec![Vec::new(); shards];
     let (mut c01, mut c03) = (Vec::new(), Vec::new());
+    let (mut n_c01, mut n_c03, mut n_changeback) = (0u64, 0u64, 0u64);
+    let mut changeback = String::from("null");
     let (mut ops, mut execs, mut noexec, mut queries, mut nodes) = (0u64, 0u64, 0u64, 0u64, 0u64);
     let mut kinds: HashMap<&'static str, u64> = HashMap::new();
     let mut runtime = rt(if cfg == "mem" { 1 } else { 4 });
     let mut hangs: Vec<String> = Vec::new();
+    let only: Option<u64> = std::env::var("QV_ONLY").ok().and_then(|s| s.parse().ok());
     for k in 0..n {
         let g = GenCfg { max_nodes: 10, max_ops: 14, allow_fw: !basic, allow_proj: !basic, allow_ext: !basic, allow_group: !basic, restarts: cfg != "mem" };
         let s = gen_scenario(&mut r, &g);
+        if let Some(only) = only { if only != k { continue; } }
         if std::env::var("QV_TRACE_SCN").is_ok() { std::fs::write(format!("{dir}/current.txt"), scenario_coq(&s)).unwrap(); }
         let done = runtime.block_on(async { tokio::time::timeout(Duration::from_secs(20), run_scenario(&s, &cfg)).await });
         let (res, j) = match done {
@@ -72,12 +76,22 @@ fn hist(args: &[String]) {
         ops += s.ops.len() as u64; execs += j.execs; noexec += j.repairs_without_exec; queries += j.queries; nodes += s.prog.exprs.len() as u64;
         for n in s.prog.exprs.keys() { *kinds.entry(match n.kind { Kind::Normal => "normal", Kind::Firewall => "firewall", Kind::Projection => "projection", _ => "other" }).or_default() += 1; }
         let line = format!("mkCase {} [{}]", scenario_coq(&s), res.iter().map(|x| x.coq()).collect::<Vec<_>>().join("; "));
-        if !j.violations_c01.is_empty() && c01.len() < 3 { c01.push(format!("{{\"violation\":{:?},\"scenario\":{:?}}}", j.violations_c01[0], line)); }
-        if !j.violations_c03.is_empty() && c03.len() < 3 { c03.push(format!("{{\"violation\":{:?},\"scenario\":{:?}}}", j.violations_c03[0], line)); }
+        if !j.violations_c01.is_empty() && c01.len() < 3 { c01.push(format!("{{\"index\":{k},\"violation\":{:?},\"scenario\":{:?}}}", j.violations_c01[0], line)); }
+        if !j.violations_c03.is_empty() && c03.len() < 3 { c03.push(format!("{{\"index\":{k},\"violation\":{:?},\"scenario\":{:?}}}", j.violations_c03[0], line)); }
+        n_c01 += !j.violations_c01.is_empty() as u64; n_c03 += !j.violations_c03.is_empty() as u64;
+        if !j.known_c03_changeback.is_empty() { n_changeback += 1; if changeback.is_empty() { changeback = format!("{{\"index\":{k},\"what\":{:?},\"scenario\":{:?}}}", j.known_c03_changeback[0], line); } }
+        if only.is_some() {
+            for (n, e) in &s.prog.exprs { eprintln!("{} := {}", n.short(), e.coq()); }
+            for (i, (op, r)) in s.ops.iter().zip(res.iter()).enumerate() {
+                eprintln!("step {i}: {:?} -> {:?} dirtied={:?}", op, r.outcome, r.dirtied);
+                for e in &r.events { eprintln!("      {:?}", e); }
+            }
+            eprintln!("C01: {:?}\nC03: {:?}", j.violations_c01, j.violations_c03);
+        }
         out[(k as usize) % shards].push(line);
     }
     for (k, lines) in out.iter().enumerate() { std::fs::write(format!("{dir}/shard_{k}.txt"), lines.join("\n") + "\n").unwrap(); }
-    println!("{{\"histories\":{n},\"ops\":{ops},\"queries\":{queries},\"executions\":{execs},\"queries_served_without_execution\":{noexec},\"nodes\":{nodes},\"kinds\":{:?},\"c01\":[{}],\"c03\":[{}],\"hangs\":[{}]}}",
+    println!("{{\"histories\":{n},\"ops\":{ops},\"queries\":{queries},\"executions\":{execs},\"queries_served_without_execution\":{noexec},\"nodes\":{nodes},\"kinds\":{:?},\"n_c01\":{n_c01},\"n_c03\":{n_c03},\"n_changeback\":{n_changeback},\"changeback\":{changeback},\"c01\":[{}],\"c03\":[{}],\"hangs\":[{}]}}",
         kinds, c01.join(","), c03.join(","), hangs.join(","));
 }
 
